@@ -328,7 +328,8 @@ def gen_value(rng, cls):
         return None
     if cls == "edge":      # boundaries of the 8.3 angstrom fields and of _format_83's branches
         c = rng.choice([Fr(-999999, 10000), Fr(9999999, 10000), Fr(-99, 1), Fr(-100, 1), Fr(-10, 1), Fr(100, 1),
-                        Fr(-9999995, 100000), Fr(99999995, 100000), Fr(1000, 1), Fr(-1, 1), Fr(1, 1)])
+                        Fr(-9999995, 100000), Fr(99999995, 100000), Fr(1000, 1), Fr(-1, 1), Fr(1, 1),
+                        Fr(-9999995, 10000), Fr(99999995, 10000), Fr(-999999, 1000), Fr(9999999, 1000)])
         return around(rng, c, 4)
     if cls == "tie":       # angstrom value (2j+1)/16 or nm value (2j+1)/16: exact ties of the 3rd decimal
         j = rng.randint(0, 400)
@@ -344,6 +345,8 @@ def gen_value(rng, cls):
         return b | (0x80000000 if sign < 0 else 0)
     if cls == "zero":
         return rng.choice([0, 0x80000000, f2b(-1e-5), f2b(1e-5), f2b(-4.9e-4), f2b(5e-5), f2b(-5e-5)])
+    if cls == "wide":      # spans > 16777 nm: the XTC coder switches to separate bit fields per coordinate
+        return f2b(sign * rng.choice([0.5, 20000.25, 150000.5, 900000.125]) * rng.uniform(0.5, 1.0))
     if cls == "over":
         return f2b(sign * rng.choice([1000.5, 12345.678, 99999.5, 1.2e6, 1.1e7]))
     raise ValueError(cls)
@@ -364,6 +367,15 @@ def gen_traj(rng, cls, n_atoms, n_frames, cell, times):
                 if a % 3 == 0 and rng.random() < 0.5:
                     base = [b + rng.uniform(-0.4, 0.4) for b in base]
                 fr += [f2b(b + rng.uniform(-0.02, 0.02)) for b in base]
+        elif cls == "wide":
+            # far-apart pairs of close atoms: large spans (separate bit fields per coordinate in XTC) while the
+            # smallest step between consecutive atoms stays small (xdrfile.c reads magicints[] out of bounds otherwise)
+            for a in range(n_atoms):
+                if a % 2 == 0:
+                    base = [b2f(gen_value(rng, "wide")) for _ in range(3)]
+                    fr += [f2b(b) for b in base]
+                else:
+                    fr += [f2b(b + rng.uniform(-0.05, 0.05)) for b in base]
         else:
             for _a in range(3 * n_atoms):
                 c = cls if rng.random() < 0.7 else rng.choice(["unit", "tiny", "zero", "tie"])
@@ -442,12 +454,12 @@ def build_trajs(ctx):
     trajs.append({"n_atoms": 3, "xyz": [[one(0.1 * k) for k in range(9)], [one(0.2 * k) for k in range(9)]], "cls": "probe",
                   "time": [one(1e-5), one(2.5)], "cell": None})
     atoms = [1, 2, 3, 4, 5, 8, 9, 10, 11, 12, 17, 23, 30]
-    classes = ["unit", "unit", "tiny", "big", "edge", "tie", "zero", "cluster", "cluster", "over"]
+    classes = ["unit", "unit", "tiny", "big", "edge", "tie", "zero", "cluster", "cluster", "over", "wide"]
     n = 46 if quick else 420
     for i in range(n):
         cls = classes[i % len(classes)]
         na = rng.choice(atoms)
-        if cls == "cluster":
+        if cls in ("cluster", "wide"):
             na = rng.choice([10, 11, 12, 17, 23, 30])
         if na > 12 and rng.random() < 0.5:
             nf = rng.randint(1, 2)
@@ -456,6 +468,21 @@ def build_trajs(ctx):
         cell = ["none", "ortho", "tric", "perframe"][(i // 2) % 4]
         times = "default" if rng.random() < 0.25 else "nonuniform"
         trajs.append(gen_traj(rng, cls, na, nf, cell, times))
+    if not quick:
+        # exhaustive: every float32 within 6 ulps of each field / branch boundary, both signs of the neighbourhood
+        bounds = [Fr(-999999, 10000), Fr(9999999, 10000), Fr(-9999995, 100000), Fr(99999995, 100000),
+                  Fr(-9999995, 10000), Fr(99999995, 10000), Fr(-999999, 1000), Fr(9999999, 1000),
+                  Fr(-9999999, 10), Fr(99999999, 10), Fr(-100), Fr(-10), Fr(100), Fr(1000), Fr(5, 10000), Fr(-5, 10000)]
+        for c in bounds:
+            b0 = f2b(float(c))
+            for k in range(-6, 7):
+                trajs.append({"n_atoms": 2, "xyz": [[b0 + k, one(0.25), one(-0.5), one(1.0), b0 + k, one(3.0)],
+                                                    [one(0.5), b0 + k, one(0.75), one(1.5), one(2.5), b0 + k]],
+                              "cls": "sweep", "time": [one(0.0), one(2.0)],
+                              "cell": {"lengths": [[one(4.0), one(5.0), one(6.0)]] * 2, "angles": [[one(90.0)] * 3] * 2,
+                                       "kind": "ortho"} if k % 2 else None})
+        ctx.notes.setdefault("coverage_extra", {})["exhaustive_boundary_sweep"] = {
+            "boundaries": [float(c) for c in bounds], "ulps": [-6, 6], "exhaustive": True}
     sid = 0
     for tj in trajs:
         tj["saves"] = saves_for(rng, tj, quick)
@@ -934,6 +961,8 @@ def check_restart(ctx, jobs, case, tj, sv, res, mem, rst_obs):
     if res["save_err"]:
         rst_obs.append((key, None, case))
         return
+    if not in_field_range(tj, ext, sv["opts"]):
+        return          # numbers beyond the 12.7 field: the columns run together, nothing to index
     lo = res["load"]
     files = sorted(res["files"], key=lambda s: (len(s), s))
     base = "s%d%s" % (sv["sid"], ext)
